@@ -549,6 +549,21 @@ std::string model_digest(NifFile& nif) {
 			nif.GetTextureSlot(shape, tex, t);
 			os << tex << ",";
 		}
+		// the partition query (read-only; it builds the partitions' true-triangle cache on first use) and what the
+		// skin partition block holds in memory
+		{
+			NiVector<BSDismemberSkinInstance::PartitionInfo> pinf;
+			std::vector<int> tp;
+			nif.GetShapePartitions(shape, pinf, tp);
+			std::string pacc(reinterpret_cast<const char*>(tp.data()), tp.size() * sizeof(int));
+			auto skinInst = hdr.GetBlock<NiSkinInstance>(shape->SkinInstanceRef());
+			if (auto sp = skinInst ? hdr.GetBlock(skinInst->skinPartitionRef) : nullptr)
+				for (auto& p : sp->partitions) {
+					pacc.append(reinterpret_cast<const char*>(p.triangles.data()), p.triangles.size() * sizeof(Triangle));
+					pacc.append(reinterpret_cast<const char*>(p.vertexMap.data()), p.vertexMap.size() * sizeof(uint16_t));
+				}
+			os << ":" << tp.size() << ":" << std::hex << fnv1a(pacc) << std::dec;
+		}
 		os << ";";
 	}
 	return os.str();
@@ -608,6 +623,26 @@ std::string do_save3(const Case& c) {
 					ps->dataRef.Clear();
 					ps->psysDataRef.Clear();
 				}
+	}
+	// rotparts=1: the file under test stores its mapped skin-partition triangles rotated (p2,p3,p1) - what exporters
+	// other than this library write; written raw and loaded again
+	if (c.geti("rotparts") == 1) {
+		NiHeader& h = nif.GetHeader();
+		for (uint32_t i = 0; i < h.GetNumBlocks(); ++i)
+			if (auto sp = h.GetBlock<NiSkinPartition>(i))
+				for (auto& p : sp->partitions)
+					for (auto& t : p.triangles)
+						t = Triangle(t.p2, t.p3, t.p1);
+		NifSaveOptions rawo;
+		rawo.optimize = false;
+		rawo.sortBlocks = false;
+		std::stringstream ss;
+		if (nif.Save(ss, rawo) != 0)
+			return "rotsave=FAIL";
+		std::stringstream in(ss.str());
+		nif.Clear();
+		if (nif.Load(in) != 0)
+			return "rotload=FAIL";
 	}
 	// kids=k: an edited model - k more nodes under the root (a node with many children)
 	if (!c.get("kids").empty())
